@@ -21,6 +21,7 @@ def run(ctx):
     gram.g14_order(ctx, g, P)
     gram.g15_kvp_args(ctx, g, P)
     gram.g9_kvp_value(ctx, g, P)
+    gram.g10_target_visible(ctx, g, P)
     gram.g16_strings_atomic(ctx, g, P)
     gram.g17_string_escapes(ctx, g, P)
     gram.scan_alignment(ctx, g, P)
